@@ -458,3 +458,175 @@ where
         }
     }
 }
+
+// ------------------------------------------------------------------------------------------------
+// file loaders (C08) and leaks on failing loads (C09)
+
+pub fn tmp_path(tag: &str) -> std::path::PathBuf {
+    let dir = std::path::Path::new("/verif/.cache/work/tmp");
+    let _ = std::fs::create_dir_all(dir);
+    dir.join(format!("epsh-{}-{}.bin", std::process::id(), tag))
+}
+
+fn anyhow_err(e: &anyhow::Error) -> String {
+    match e.downcast_ref::<deser::Error>() {
+        Some(d) => crate::err_string(d),
+        None => "err io".to_string(),
+    }
+}
+
+pub fn flags_of(bits: u32) -> Flags {
+    Flags::from_bits_truncate(bits)
+}
+
+/// Show a loaded case: contents through Deref (offsets relative to the backing region), the region
+/// (length, address modulo 4096, zero tail), and the same contents after moving / boxing the case
+/// and reading it from other threads.
+pub fn show_case<S: crate::Show + Send + Sync>(case: MemCase<S>, file_len: usize) -> String {
+    let (start, len) = case.verif_backend_range().unwrap_or((0, 0));
+    crate::BASE.with(|b| b.set((start, len)));
+    let mut s0 = String::new();
+    (*case).show(&mut s0);
+    let mut s1 = String::new();
+    case.as_ref().show(&mut s1);
+    // tail bytes of the region
+    let tail_zero = if len >= file_len && start != 0 {
+        let region = unsafe { core::slice::from_raw_parts(start as *const u8, len) };
+        region[file_len..].iter().all(|b| *b == 0)
+    } else {
+        len >= file_len
+    };
+    let kind = case.verif_backend_kind();
+    // move, box, read from other threads
+    let moved = case;
+    let boxed = Box::new(moved);
+    let mut s2 = String::new();
+    (**boxed).show(&mut s2);
+    let base = (start, len);
+    let mut ok_threads = true;
+    std::thread::scope(|sc| {
+        let hs: Vec<_> = (0..4)
+            .map(|_| {
+                let r = &boxed;
+                sc.spawn(move || {
+                    crate::BASE.with(|b| b.set(base));
+                    let mut s = String::new();
+                    (***r).show(&mut s);
+                    s
+                })
+            })
+            .collect();
+        for h in hs {
+            if h.join().map(|s| s != s0).unwrap_or(true) {
+                ok_threads = false;
+            }
+        }
+    });
+    // send the case itself to another thread, read it there, drop it there
+    let sent = std::thread::scope(|sc| {
+        sc.spawn(move || {
+            crate::BASE.with(|b| b.set(base));
+            let mut s = String::new();
+            (**boxed).show(&mut s);
+            s
+        })
+        .join()
+        .unwrap_or_default()
+    });
+    let stable = s1 == s0 && s2 == s0 && ok_threads && sent == s0;
+    format!("ok {} region={} basemod={} tailzero={} moved={} kind={}", s0, len, start % 4096 % 64, tail_zero, stable, kind)
+}
+
+pub fn load_generic<T>(v: &T, loader: &str, flags: u32) -> String
+where
+    T: Serialize + Deserialize + crate::Show,
+    for<'a> DeserType<'a, T>: crate::Show + Send + Sync,
+{
+    let path = tmp_path("load");
+    let expected = match crate::ser_generic(v) {
+        Ok((_, b)) => b,
+        Err(e) => return format!("load ser-{}", e),
+    };
+    if let Err(e) = v.store(&path) {
+        return format!("load store-err {:?}", e);
+    }
+    let on_disk = std::fs::read(&path).unwrap_or_default();
+    let store_ok = on_disk.len() == expected.len();   // contents compared by the caller through the mask
+    let file_len = on_disk.len();
+    let r = match loader {
+        "full" => match crate::catch(|| T::load_full(&path)) {
+            None => "panic".to_string(),
+            Some(Err(e)) => anyhow_err(&e),
+            Some(Ok(x)) => {
+                let mut s = String::from("ok ");
+                x.show(&mut s);
+                s.push_str(&format!(" region=0 basemod=0 tailzero=true moved=true kind=0"));
+                s
+            }
+        },
+        "mem" => match crate::catch(|| T::load_mem(&path)) {
+            None => "panic".to_string(),
+            Some(Err(e)) => anyhow_err(&e),
+            Some(Ok(c)) => show_case(c, file_len),
+        },
+        "mmap" => match crate::catch(|| T::load_mmap(&path, flags_of(flags))) {
+            None => "panic".to_string(),
+            Some(Err(e)) => anyhow_err(&e),
+            Some(Ok(c)) => show_case(c, file_len),
+        },
+        "map" => match crate::catch(|| T::mmap(&path, flags_of(flags))) {
+            None => "panic".to_string(),
+            Some(Err(e)) => anyhow_err(&e),
+            Some(Ok(c)) => show_case(c, file_len),
+        },
+        _ => "badloader".to_string(),
+    };
+    let _ = std::fs::remove_file(&path);
+    format!("load {} store={} file={} mflags={}", r, store_ok, crate::term::hex(&on_disk), flags_of(flags).verif_mmap_flags())
+}
+
+fn count_maps() -> usize {
+    std::fs::read_to_string("/proc/self/maps").map(|s| s.lines().count()).unwrap_or(0)
+}
+
+/// Load `bytes` (a corrupted / truncated / foreign file) `reps` times with the given loader and report
+/// the growth of live heap bytes and of the number of memory mappings.
+pub fn leak_generic<T>(bytes: &[u8], loader: &str, reps: usize) -> String
+where
+    T: Deserialize,
+    for<'a> DeserType<'a, T>: Send + Sync,
+{
+    use std::sync::atomic::Ordering::SeqCst;
+    let path = tmp_path("leak");
+    std::fs::write(&path, bytes).unwrap();
+    let run = |p: &std::path::Path| -> bool {
+        match loader {
+            "full" => T::load_full(p).is_ok(),
+            "mem" => T::load_mem(p).map(|c| drop(c)).is_ok(),
+            "mmap" => T::load_mmap(p, Flags::empty()).map(|c| drop(c)).is_ok(),
+            "map" => T::mmap(p, Flags::empty()).map(|c| drop(c)).is_ok(),
+            _ => false,
+        }
+    };
+    // warm up (lazy statics, thread-local buffers), then measure
+    let first = crate::catch(|| run(&path));
+    let h0 = crate::alloc::LIVE_BYTES.load(SeqCst);
+    let m0 = count_maps();
+    let mut oks = 0;
+    let mut panics = 0;
+    for _ in 0..reps {
+        match crate::catch(|| run(&path)) {
+            Some(true) => oks += 1,
+            Some(false) => {}
+            None => panics += 1,
+        }
+    }
+    let h1 = crate::alloc::LIVE_BYTES.load(SeqCst);
+    let m1 = count_maps();
+    let _ = std::fs::remove_file(&path);
+    format!(
+        "leak first={} oks={} panics={} heap={} maps={}",
+        match first { Some(true) => "ok", Some(false) => "err", None => "panic" },
+        oks, panics, h1 - h0, m1 as isize - m0 as isize
+    )
+}
